@@ -35,7 +35,7 @@ NoLast == [kind |-> "none"]
 
 Init ==
   /\ st = St0 /\ now = 0 /\ nops = 0 /\ nacc = 0 /\ last = NoLast /\ logs = <<>>
-  /\ (Witness => \A i \in 1..20 : TLCSet(i, FALSE))
+  /\ (Witness => \A i \in 1..21 : TLCSet(i, FALSE))
 
 NoOp == [m |-> "-", v |-> "-", src |-> "-", to |-> "-", act |-> "-", md |-> "-", signer |-> "-", chain |-> "-", tamper |-> "-", amt |-> 0]
 
@@ -71,16 +71,17 @@ MethodIdx(op) ==
 (* A step is a call by immediate caller c on route "cpc" (Effect) or the submission of the corresponding native
    messages on route "native" (ApplyMsgs of the expansion).  Both are explored when BothRoutes; otherwise only the
    precompile route is explored and RouteIndependent still computes the native result for every step. *)
-Step(route, c, op) ==
+Step(route, o, c, op) ==          \* o = transaction origin (an EOA), c = immediate caller of the precompile
   /\ nops < MaxOps
   /\ LET e == IF route = "cpc" THEN Effect(CF, st, now, c, op)
               ELSE ApplyMsgs(CF, st, now, Expand(CF, st, c, op))
      IN /\ st' = e.st
         /\ logs' = IF route = "cpc" /\ e.ok THEN Translate(e.evs, c) ELSE <<>>
-        /\ last' = [kind |-> "op", route |-> route, caller |-> c, op |-> op, ok |-> e.ok, evs |-> e.evs]
+        /\ last' = [kind |-> "op", route |-> route, origin |-> o, caller |-> c, op |-> op, ok |-> e.ok, evs |-> e.evs]
         /\ (Witness => /\ (e.ok => TLCSet(MethodIdx(op) + (IF route = "cpc" THEN 0 ELSE 8), TRUE))
                        /\ ((e.ok /\ c = "c1") => TLCSet(17, TRUE))
                        /\ ((IsSigned(op) /\ ~ValidSigned(op, c)) => TLCSet(18, TRUE))
+                       /\ (RelayedByOrigin(op, c, o) => TLCSet(21, TRUE))
                        /\ ((e.ok /\ Len(e.st.red[c]) > 0 /\ Len(st.red[c]) > 0) => TLCSet(19, TRUE)))
   /\ nops' = nops + 1
   /\ UNCHANGED <<now, nacc>>
@@ -101,12 +102,15 @@ Tick ==
   /\ last' = [kind |-> "tick"] /\ logs' = <<>>
   /\ UNCHANGED <<nops, nacc>>
 
+Origins(c) == IF c = "c1" THEN {"d1", "d2"} ELSE {c}
 Routes == IF BothRoutes THEN {"cpc", "native"} ELSE {"cpc"}
 
 Next ==
-  \/ \E route \in Routes, c \in McD : \E op \in PlainOps(c) : Step(route, c, op)
-  \/ \E route \in Routes, c \in {"d1", "d2"} : \E op \in ValidOps(c) : Step(route, c, op)
-  \/ (now = 0 /\ \E c \in McD : \E op \in ForgedOps(c) : Step("cpc", c, op))     \* authorisation does not depend on time
+  \/ \E route \in Routes, c \in McD : \E op \in PlainOps(c) : Step(route, IF c = "c1" THEN "d1" ELSE c, c, op)
+  \/ \E route \in Routes, c \in {"d1", "d2"} : \E op \in ValidOps(c) : Step(route, c, c, op)
+  \* forged grid; a contract caller is reached by a transaction of either EOA, so the grid contains
+  \* "delegator = signer = tx origin, immediate caller = contract" (authorisation does not depend on time)
+  \/ (now = 0 /\ \E c \in McD : \E o \in Origins(c) : \E op \in ForgedOps(c) : Step("cpc", o, c, op))
   \/ Accrue
   \/ Tick
 
@@ -128,6 +132,10 @@ OnlyCaller == [][IsOp => OnlyCallerOK(CF, st, st', last'.caller)]_vars
 ForgedRejected ==
   [][(IsOp /\ IsSigned(last'.op) /\ ~ValidSigned(last'.op, last'.caller)) => (st' = st /\ logs' = <<>> /\ ~last'.ok)]_vars
 
+(* the transaction origin is no authority: relayed by a contract, even the origin's own valid signature is refused *)
+OriginIsNoAuthority ==
+  [][(IsOp /\ RelayedByOrigin(last'.op, last'.caller, last'.origin)) => (st' = st /\ logs' = <<>> /\ ~last'.ok)]_vars
+
 RouteIndependent ==
   [][IsOp => LET c == last'.caller  op == last'.op
                  e == Effect(CF, st, now, c, op)
@@ -147,8 +155,9 @@ FailedChangesNothing == [][(IsOp /\ ~last'.ok) => (st' = st /\ logs' = <<>>)]_va
 SupplyConserved == [][(IsOp \/ last'.kind = "tick") => Total(CF, st') = Total(CF, st)]_vars
 
 (* Vacuity guard (single-worker run with Witness = TRUE): every method succeeds on both routes, a contract
-   caller succeeds, a forged message occurs, a second redelegation entry and a maturing entry occur. *)
+   caller succeeds, a forged message occurs, a second redelegation entry and a maturing entry occur,
+   a message of delegator = signer = tx origin is relayed by the contract (21). *)
 WitnessAll ==
-  LET missing == {i \in 1..20 : TLCGet(i) # TRUE} IN
+  LET missing == {i \in 1..21 : TLCGet(i) # TRUE} IN
   IF missing = {} THEN TRUE ELSE Print(<<"WITNESS MISSING", missing>>, FALSE)
 =============================================================================
